@@ -21,6 +21,7 @@ import (
 	"runtime/pprof"
 	"sort"
 	"strings"
+	"time"
 
 	gregexp "github.com/grafana/regexp"
 	"github.com/sourcegraph/zoekt"
@@ -47,25 +48,46 @@ type shardH struct {
 // searchKeys runs the real search (no limits, whole content returned so that documents are identified by
 // repo+name+content) and returns the sorted identities.
 func searchKeys(s zoekt.Searcher, q *QSpec) (keys []string, err error) {
-	defer func() {
-		if p := recover(); p != nil {
-			err = fmt.Errorf("panic: %v", p)
-		}
-	}()
 	zq, err := q.build()
 	if err != nil {
 		return nil, fmt.Errorf("build: %w", err)
 	}
-	res, err := s.Search(context.Background(), zq, &zoekt.SearchOptions{Whole: true})
-	if err != nil {
-		return nil, fmt.Errorf("search error: %w", err)
+	type out struct {
+		keys []string
+		err  error
 	}
-	for _, f := range res.Files {
-		keys = append(keys, docKey(f.Repository, f.FileName, string(f.Content)))
+	ch := make(chan out, 1)
+	go func() {
+		var o out
+		defer func() {
+			if p := recover(); p != nil {
+				o = out{err: fmt.Errorf("panic: %v", p)}
+			}
+			ch <- o
+		}()
+		res, err := s.Search(context.Background(), zq, &zoekt.SearchOptions{Whole: true})
+		if err != nil {
+			o.err = fmt.Errorf("search error: %w", err)
+			return
+		}
+		for _, f := range res.Files {
+			o.keys = append(o.keys, docKey(f.Repository, f.FileName, string(f.Content)))
+		}
+		sort.Strings(o.keys)
+	}()
+	select {
+	case o := <-ch:
+		return o.keys, o.err
+	case <-time.After(searchTimeout):
+		// the search goroutine keeps spinning; the run stops after reporting this case
+		hung = true
+		return nil, fmt.Errorf("hang: the search did not return within %v", searchTimeout)
 	}
-	sort.Strings(keys)
-	return keys, nil
 }
+
+const searchTimeout = 60 * time.Second
+
+var hung bool
 
 func diffKeys(got, want []string) (missing, extra []string) {
 	i, j := 0, 0
@@ -150,11 +172,14 @@ func isWordByte(c byte) bool {
 }
 
 // classify names the failure class of a minimised failing query (the key matched against known findings).
-func classify(q *QSpec, verdict string, missing, extra []string) string {
-	if len(extra) == 0 && engineKelvin(q, missing) {
+func classify(c *Corpus, q *QSpec, verdict string, missing, extra []string) string {
+	if len(extra) == 0 && engineKelvin(c, q, missing) {
 		return "mismatch:engine-kelvin-fold"
 	}
 	pre := "mismatch"
+	if strings.HasPrefix(verdict, "hang") {
+		return "hang"
+	}
 	if strings.HasPrefix(verdict, "panic") {
 		pre = "panic"
 	} else if strings.HasPrefix(verdict, "search error") {
@@ -180,7 +205,12 @@ func classify(q *QSpec, verdict string, missing, extra []string) string {
 // engineKelvin: the failure is the regexp engine's: for a case-insensitive atom that goes through the engine, the
 // grafana/regexp fork zoekt uses does not match a document text that the standard library's engine matches, and
 // U+212A KELVIN SIGN (whose simple-fold orbit is k, K, U+212A) is involved.
-func engineKelvin(q *QSpec, missing []string) bool {
+func engineKelvin(c *Corpus, q *QSpec, missing []string) bool {
+	sym := false
+	if q.Kind == "sym" { // the same engine runs on the text of each symbol range
+		q = &q.Ch[0]
+		sym = true
+	}
 	var src string
 	switch q.Kind {
 	case "substr":
@@ -204,8 +234,22 @@ func engineKelvin(q *QSpec, missing []string) bool {
 	}
 	for _, k := range missing {
 		p := strings.SplitN(k, "\x00", 3)
+		texts := p[1:]
+		if sym {
+			texts = nil
+			for i := range c.Repos {
+				for j := range c.Repos[i].Docs {
+					d := &c.Repos[i].Docs[j]
+					if c.Repos[i].Name == p[0] && d.Name == p[1] && d.IndexedContent() == p[2] {
+						for _, sec := range d.Syms {
+							texts = append(texts, d.Content[sec.Start:sec.End])
+						}
+					}
+				}
+			}
+		}
 		hit := false
-		for _, text := range p[1:] {
+		for _, text := range texts {
 			if st.MatchString(text) && !g.MatchString(text) && (strings.ContainsRune(text, 0x212a) || strings.ContainsRune(q.Pat, 0x212a)) {
 				hit = true
 			}
@@ -276,16 +320,24 @@ func (rn *runner) runCorpus(c *Corpus, mode string, next func() (QSpec, bool)) e
 				cs.Class = "e2e-oracle-error"
 				rn.w.Count("oracle-error:"+verdict, 1)
 			} else {
-				mq := shrink(o, sh, q)
-				v2, m2, e2, _ := check(o, sh, &mq)
+				mq := q
+				v2, m2, e2 := verdict, missing, extra
+				if !hung {
+					mq = shrink(o, sh, q)
+					v2, m2, e2, _ = check(o, sh, &mq)
+				}
 				if v2 == "" { // cannot happen (shrink only keeps failing trees); keep the original
 					mq, v2, m2, e2 = q, verdict, missing, extra
 				}
 				cs.Go = v2 + " query=" + mq.String()
-				cs.Key = classify(&mq, v2, m2, e2)
+				cs.Key = classify(c, &mq, v2, m2, e2)
 				cs.Detail = gen.Detail(e2eDetail{Corpus: c, Query: q, MinQuery: &mq, Shard: name, Mode: mode, Missing: short(m2), Extra: short(e2), Err: v2})
 			}
 			rn.w.Emit(cs)
+			if hung {
+				rn.w.Close()
+				os.Exit(0) // the failing case is on record; a search that does not terminate cannot be waited for
+			}
 			// correspondence with the Lean engine model on the same (shard, query)
 			if alphaOK && (nrunes < 1500 || nq%6 == 0) {
 				traceCase(rn.w, sh, &q, e2eDetail{Corpus: c, Query: q, Shard: name, Mode: mode})
@@ -360,11 +412,8 @@ func main() {
 			}
 			return
 		}
-		if rp.First.In != "" {
-			replayModelCase(w, rp.First.In)
-			return
-		}
-		fmt.Fprintln(os.Stderr, "replay file has no re-runnable case; running the normal search")
+		// a model/implementation disagreement is reproduced by the seeded run itself
+		fmt.Fprintln(os.Stderr, "replay file has no stored corpus; running the normal seeded search")
 	}
 
 	// corpus of witnesses / past failures first
@@ -394,8 +443,8 @@ func main() {
 	runComponents(w, r.Fork(), f)
 
 	// F: end to end
-	nCorpora := f.N(140, 3000)
-	nQueries := f.N(30, 80)
+	nCorpora := f.N(70, 500)
+	nQueries := f.N(24, 50)
 	for i := 0; i < nCorpora; i++ {
 		cr := r.Fork()
 		c := genCorpus(cr, i%5 == 4)
